@@ -921,7 +921,6 @@ func inflateText(v any, n int) any {
 	return v
 }
 
-
 var runnerDirty string
 
 // dirtyRelevant: every candidate may depend on the bytes behind a buffer's content (the model keeps them unknown)
